@@ -27,7 +27,7 @@ ASSUMPTIONS = [
     "'well-formed' = produced by the type table (DESIGN.md Appendix A)",
     "lossless styles: any origin/relativize, chunk sizes with the default separator, txt_is_utf8 on or off, truncate_crypto off",
 ]
-REQUIRED = ["mon.text_roundtrip", "mon.generic_roundtrip", "mon.wire_survivor_to_text", "mon.text_survivor_to_wire"]
+REQUIRED = ["mon.relativize_to_other_than_origin", "mon.text_roundtrip", "mon.generic_roundtrip", "mon.wire_survivor_to_text", "mon.text_survivor_to_wire"]
 BUDGET = {"quick": 45.0, "thorough": 480.0}
 
 
@@ -231,6 +231,26 @@ def generic_probe(val, origin, with_origin):
     return None
 
 
+def relto_probe(val, origin):
+    """the zone reader's situation after a $ORIGIN below the zone origin: names in the text are relative to the current
+    origin, the record is to be relativized to the zone origin (from_text(..., origin=current, relativize_to=zone))"""
+    rd = GR.build(val)
+    cur = mkname(origin)
+    zone_o = tuple(origin[1:])
+    try:
+        t = rd.to_text(origin=cur, relativize=True)
+    except Exception as e:
+        return ("to_text-raised:" + core.exc_sig(e), repr(e))
+    try:
+        rd2 = dns.rdata.from_text(val.rdclass, val.rdtype, t, origin=cur, relativize=True, relativize_to=mkname(zone_o))
+    except Exception as e:
+        return ("parse-raised-" + classify_exception(e) + ":" + type(e).__name__, f"text={t!r}: {e!r}")
+    expect = GR.build(normalized(val, zone_o, "norm"))
+    if rd2 != expect or not (rd2 == expect):
+        return ("mismatch", f"text={t!r} parsed={rd2!r} expected={expect!r}")
+    return None
+
+
 def check_value(ctx, val, origin):
     rng = ctx.rng
     t = val.tname
@@ -248,6 +268,7 @@ def check_value(ctx, val, origin):
     press = presentations(rng, origin is not None, val.has_relative())
     if t == "OPT":
         press = []  # OPT is a pseudo-RR without a master-file form (no from_text); only the RFC 3597 form applies
+    main_ok = bool(press)
     for pres in press:
         chunks = rng.choice((None, None, (0, 0), (1, 1), (4, 4), (32, 128), (64, 64), (128, 32), (32, 128, "utf8"), (32, 128, "utf8"),
                              ("legacy-keywords", 16, " "), ("legacy-keywords", 64, "\t")))
@@ -262,11 +283,19 @@ def check_value(ctx, val, origin):
             ctx.violation(f"harness:{t}:" + core.exc_sig(e), repr(e), case)
             continue
         if res is not None:
+            main_ok = False
             kind, detail = res
             cause = diagnose(val, lambda v2: text_probe(v2, origin, pres, chunks, wrap) is not None)
             ctx.violation(f"text-rt:{t}:{kind}:{cause}", f"{describe(val)} origin={origin!r} presentation={pres[0]} chunks={chunks} wrap={wrap}: {detail}",
                           dict(case, pres=pres[0], chunks=chunks, wrap=wrap))
             break
+    if main_ok and origin is not None and len(origin) >= 3 and not val.has_relative() and t not in GR.META_TYPES:
+        # (only for values whose ordinary text round trip holds: the known text findings are diagnosed there, not here)
+        ctx.count("evaluations")
+        ctx.count("mon.relativize_to_other_than_origin")
+        res = relto_probe(val, origin)
+        if res is not None:
+            ctx.violation(f"text-rt:{t}:relativize_to-differs-from-origin:{res[0]}", f"{describe(val)} origin={origin!r}: {res[1]}", dict(case, relto=True))
     # RFC 3597 generic form of known and unknown types
     for with_origin in ((False, True, "abs") if origin is not None else (False,)):
         ctx.count("evaluations")
